@@ -168,6 +168,19 @@ func (b *builder) add(event Event) {
 	}
 }
 
+// whileBuilding calls the given function with the builder's lock held, unless
+// the trace has already been completed and handed to the collector. It is for
+// updates to data that the trace refers to, which must not happen after the
+// trace is handed off.
+func (b *builder) whileBuilding(update func()) {
+	b.mu.Lock()
+	defer b.mu.Unlock()
+	if b.trace.TestName == "" {
+		return
+	}
+	update()
+}
+
 func (b *builder) getAndClearLocked() Trace {
 	trace := b.trace
 	b.trace = Trace{} // reset; subsequent calls to add or build ignored
